@@ -131,11 +131,13 @@ class Ctx:
         env.update(GOENV)
         env["VERIF_SEED"] = str(self.seed)
         env["VERIF_TIER"] = self.tier
+        mark = None
         if args and args[0] == "replay":
-            for f in os.listdir(self.work):
-                if f.startswith("mark."):
-                    os.remove(os.path.join(self.work, f))
-            env["VERIF_MARK"] = os.path.join(self.work, "mark")
+            # several replays may run side by side from this directory: each gets its own marker files
+            with _MARK_LOCK:
+                _MARK_COUNT[0] += 1
+                mark = os.path.join(self.work, "mark%d" % _MARK_COUNT[0])
+            env["VERIF_MARK"] = mark
         if env_extra:
             env.update(env_extra)
         t = time.time()
@@ -149,7 +151,7 @@ class Ctx:
             m = re.search(r"^(fatal error: .*|panic: .*|runtime: goroutine stack exceeds.*)$", err, re.M)
             if m and not getattr(self, "_in_crash_probe", False):
                 # the Go runtime went down: the harness itself is panic-safe, so this is most likely the code under test
-                raise HarnessCrash(list(map(str, args)), m.group(1)[:160], err[-3000:], race)
+                raise HarnessCrash(list(map(str, args)), m.group(1)[:160], err[-3000:], race, mark)
             raise Infra("harness failed rc=%d: vh %s\n%s" % (p.returncode, " ".join(map(str, args)), err[-4000:]))
         lines = [l for l in p.stdout.splitlines() if l.strip()]
         if not lines:
@@ -319,11 +321,16 @@ class Ctx:
                     e[k] = rep[k]
 
 
+import threading
+_MARK_LOCK = threading.Lock()
+_MARK_COUNT = [0]
+
+
 class HarnessCrash(Exception):
     """The harness process was brought down by the Go runtime (fatal error, unrecovered panic)."""
-    def __init__(self, args, first, stderr, race=False):
+    def __init__(self, args, first, stderr, race=False, mark=None):
         Exception.__init__(self, first)
-        self.vh_args, self.first, self.stderr, self.race = args, first, stderr, race
+        self.vh_args, self.first, self.stderr, self.race, self.mark = args, first, stderr, race, mark
 
 
 def crashes(ctx, args, race=False, env_extra=None):
@@ -347,8 +354,9 @@ def crash_to_violation(ctx, e):
     if a and a[0] == "replay":
         world, batch = a[1], a[2]
         lines = set()
+        mbase = os.path.basename(e.mark or "mark") + "."
         for f in os.listdir(ctx.work):
-            if f.startswith("mark."):
+            if f.startswith(mbase):
                 try:
                     lines.add(int(open(os.path.join(ctx.work, f)).read().split()[0]))
                 except (ValueError, IndexError):
